@@ -27,6 +27,14 @@ ALLOWED_AXIOMS = {
     "ProofIrrelevance.proof_irrelevance",
     "JMeq.JMeq_eq",
 }
+# Floats.FloatAxioms (the standard library's specification of the kernel's primitive floats) and the primitive
+# float / int63 constants, as Print Assumptions prints them when Floats is imported (unqualified)
+ALLOWED_FLOAT_SPEC = {
+    "float", "normfr_mantissa", "frshiftexp", "ldshiftexp", "leb_spec", "ltb_spec", "eqb_spec", "compare_spec",
+    "classify_spec", "abs_spec", "opp_spec", "mul_spec", "add_spec", "sub_spec", "div_spec", "sqrt_spec",
+    "of_uint63_spec", "Prim2SF_valid", "SF2Prim_Prim2SF", "Prim2SF_SF2Prim", "next_up_spec", "next_down_spec",
+    "normfr_mantissa_spec", "frshiftexp_spec", "ldshiftexp_spec", "Leibniz.eqb_spec",
+}
 ALLOWED_PREFIXES = ("PrimFloat.", "Uint63.", "PrimInt63.", "FloatAxioms.", "FloatOps.",
                     "Sint63.", "FloatLemmas.", "CarryType.", "PrimString.")
 
@@ -144,7 +152,7 @@ def parse_assumptions(out):
 
 
 def axiom_ok(name):
-    return name in ALLOWED_AXIOMS or name.startswith(ALLOWED_PREFIXES)
+    return name in ALLOWED_AXIOMS or name in ALLOWED_FLOAT_SPEC or name.startswith(ALLOWED_PREFIXES)
 
 
 def audit_sources():
@@ -226,6 +234,13 @@ class Report:
 
     def finish(self):
         os.makedirs(EVID, exist_ok=True)
+        if self.level == "proof" and self.cov.get("obligations", 0) == 0:
+            # no theorem file for this property in this revision: what the run did is a model-vs-implementation validation
+            self.level = "translation_validation"
+            self.cov["programs"] = self.cov.get("evaluations", 0)
+            self.cov["disagreements_checked"] = self.cov.get("correspondence_disagreements", 0)
+            for k in ("obligations", "discharged", "checker_cmd"):
+                self.cov.pop(k, None)
         ev = {
             "property_id": self.prop,
             "tier": tier(),
